@@ -9,7 +9,7 @@ from ..gen import queries as gq
 PROP = "C01"
 RULE = (
     "cases = (ADMG n<=5 with hostile classes, disjoint non-empty X,Y) driven through the real identify_outcomes "
-    "(and identify(Identification) on a share of cases, and the 50 example graphs of y0.examples with random "
+    "(and identify(Identification) built directly, with from_parts, from_expression or Query.from_str, and the single-Variable call form, on shares of the cases; graphs built through add_*, from_edges, from_str_edges, from_adj, from_str_adj; and the 50 example graphs of y0.examples with random "
     "queries); post-condition builds K random positive SCMs (exact rational arithmetic, cards 2-3, per-edge or "
     "per-clique latents) and compares the estimand with P(y|do x) for ALL assignments of X, Y and every other "
     "free variable. non-trivial = an estimand was returned and the trace contains line 4, 6 or 7; distinct by "
@@ -36,13 +36,7 @@ def run_case(ctx, gd, q, via="outcomes"):
     kernel.LOG.reset_case({"graph": gd, "X": q["X"], "Y": q["Y"], "via": via})
     res = None
     try:
-        if via == "outcomes":
-            res = identify_outcomes(g, X, Y)
-        else:
-            try:
-                res = identify(Identification(query=Query(outcomes=Y, treatments=X), graph=g))
-            except Unidentifiable:
-                res = None
+        res = gq.call_id(g, {"X": q["X"], "Y": q["Y"], "Z": []}, via)
     except Exception:  # noqa: BLE001  (totality is C02's clause; the monitor has logged it)
         kernel.count("C01:driver-saw-exception")
     tags = set(kernel.tags())
@@ -107,7 +101,7 @@ def run_shard(ctx, K=None):
             continue
         hostile_seen[gd["hostile"]] = hostile_seen.get(gd["hostile"], 0) + 1
         qcls[q["cls"]] = qcls.get(q["cls"], 0) + 1
-        run_case(ctx, gd, q, via="outcomes" if i % 4 else "identify")
+        run_case(ctx, gd, q, via=rng.choice(gq.CALL_FORMS))
         if "id.line7" in kernel.tags():
             POOL.append((gd, q))
     # feedback: cases whose trace reached line 7 (rare under uniform sampling) are kept and mutated
